@@ -167,6 +167,10 @@ func PrevLabel(s string, n int) (i int, start bool) {
 	if n == 0 {
 		return len(s), false
 	}
+	if s == "." {
+		// the root name has no labels
+		return 0, true
+	}
 
 	l := len(s) - 1
 	if s[l] == '.' {
